@@ -74,7 +74,8 @@ theorem publishOne_mem {y : Sys} {b : Batch} {rest : List Batch} (hq : y.queue =
     ∀ c' ∈ (publishOne y).clients, ∃ c ∈ y.clients,
       c'.m = c.m ∧ c'.key = c.key ∧ c'.id = c.id ∧ c'.mono = c.mono ∧ c'.lastDelivered = c.lastDelivered ∧
       (c'.sub = .opened → c.sub = .opened) ∧
-      c'.inbox = (if c.key ∈ keysOf b.evs ∧ attached c then c.inbox ++ [Step.item (mkItem c.key b)] else c.inbox) := by
+      c'.inbox = (if c.key ∈ keysOf b.evs ∧ attached c then c.inbox ++ [Step.item (mkItem c.key b)] else c.inbox) ∧
+      c'.authz = c.authz := by
   intro c' hc'
   have hn : (keysOf b.evs).Nodup := nodup_dedupKeys _
   rw [publishOne_eq y b rest hq, foldl_publishKey_clients b (keysOf b.evs) hn] at hc'
@@ -88,10 +89,10 @@ theorem publishOne_mem {y : Sys} {b : Batch} {rest : List Batch} (hq : y.queue =
   by_cases hk : c.key ∈ keysOf b.evs ∧ attached c
   · have hk' : (closeAcl b c).key ∈ keysOf b.evs ∧ attached (closeAcl b c) := by rw [f2, fa]; exact hk
     simp only [hk, hk', and_self, ↓reduceIte, f1, f2, f3, f4, f6, true_and]
-    exact ⟨f5, trivial⟩
+    exact ⟨f5, closeAcl_authz b c⟩
   · have hk' : ¬ ((closeAcl b c).key ∈ keysOf b.evs ∧ attached (closeAcl b c)) := by rw [f2, fa]; exact hk
     simp only [hk', hk, ↓reduceIte]
-    exact ⟨f1, f2, f3, f6.1, f6.2, f5, f4⟩
+    exact ⟨f1, f2, f3, f6.1, f6.2, f5, f4, closeAcl_authz b c⟩
 
 theorem publishOne_cat_queue {y : Sys} {b : Batch} {rest : List Batch} (hq : y.queue = b :: rest) :
     (publishOne y).cat = y.cat ∧ (publishOne y).queue = rest ∧ (publishOne y).lastIdx = y.lastIdx := by
@@ -108,7 +109,7 @@ theorem MInv.publishOne {y : Sys} (h : MInv y) (hc : ∀ e ∈ y.cache, hasBuf y
       obtain ⟨c, hcm, -, -, -, hm, -⟩ := publishOne_mem hq c' hc'
       rw [hm]; exact h.mono c hcm
     · intro c' hc' ho
-      obtain ⟨c, hcm, -, hk, -, -, hl, hs, hi⟩ := publishOne_mem hq c' hc'
+      obtain ⟨c, hcm, -, hk, -, -, hl, hs, hi, -⟩ := publishOne_mem hq c' hc'
       have hop := hs ho
       have hat : attached c = true := by simp [attached, hop]
       have := h.ord c hcm hop
@@ -151,8 +152,26 @@ theorem MInv.replace {y : Sys} (h : MInv y) (c' : Client) (ca : List CacheEnt) (
     · exact h.ord d hd' hop
   · exact hca
 
-theorem MInv.next {y : Sys} (h : MInv y) (id : Nat) (hz : ∀ c, getClient y id = some c → c.authz = .all) :
-    MInv (next y id).1 := by
+theorem stepIdx_visible {a : Authz} {t : Topic} {st0 st : Step} (h : visible a t st0 = some st) :
+    stepIdx st = stepIdx st0 := by
+  cases st0 with
+  | nstf => simp only [visible, Option.some.injEq] at h; subst h; rfl
+  | eos i p => simp only [visible, Option.some.injEq] at h; subst h; rfl
+  | item it =>
+    simp only [visible] at h
+    split at h
+    · cases h
+    · simp only [Option.some.injEq] at h; subst h; rfl
+
+theorem asc_tail {lo hi : Nat} {st0 : Step} {l : List Step} (h : Asc lo (stepIdxs (st0 :: l)) hi) :
+    Asc lo (stepIdxs l) hi := by
+  cases hs : stepIdx st0 with
+  | none => simpa [stepIdxs, hs] using h
+  | some i =>
+    have : lo ≤ i ∧ Asc i (stepIdxs l) hi := by simpa [stepIdxs, hs, Asc] using h
+    exact this.2.mono_lo this.1
+
+theorem MInv.next {y : Sys} (h : MInv y) (id : Nat) : MInv (next y id).1 := by
   unfold CV.Stream.next CV.Stream.nextWith
   cases hg : getClient y id with
   | none => exact h
@@ -179,22 +198,28 @@ theorem MInv.next {y : Sys} (h : MInv y) (id : Nat) (hz : ∀ c, getClient y id 
       simp only
       cases hin : c.inbox with
       | nil => exact h
-      | cons st rest =>
-        simp only [hz c hg, visible_all]
+      | cons st0 rest =>
+        simp only
         have ha := h.ord c hc hsub
         rw [hin] at ha
-        cases hidx : stepIdx st with
+        cases hv : visible c.authz c.key.topic st0 with
         | none =>
           simp only
-          have ha' : Asc c.lastDelivered (stepIdxs (rest ++ queueItems c.key y.queue)) y.lastIdx := by
-            simpa [stepIdxs, hidx] using ha
-          exact h.replace _ y.cache y.lasts (h.mono c hc) (fun _ => ha') h.cord
-        | some i =>
+          exact h.replace _ y.cache y.lasts (h.mono c hc) (fun _ => asc_tail ha) h.cord
+        | some st =>
           simp only
-          have ha' : c.lastDelivered ≤ i ∧ Asc i (stepIdxs (rest ++ queueItems c.key y.queue)) y.lastIdx := by
-            simpa [stepIdxs, hidx, Asc] using ha
-          refine h.replace _ y.cache y.lasts ?_ (fun _ => ha'.2) h.cord
-          simp [h.mono c hc, ha'.1]
+          have hsi := stepIdx_visible hv
+          cases hidx : stepIdx st with
+          | none =>
+            simp only
+            exact h.replace _ y.cache y.lasts (h.mono c hc) (fun _ => asc_tail ha) h.cord
+          | some i =>
+            simp only
+            rw [hidx] at hsi
+            have ha' : c.lastDelivered ≤ i ∧ Asc i (stepIdxs (rest ++ queueItems c.key y.queue)) y.lastIdx := by
+              simpa [stepIdxs, ← hsi, Asc] using ha
+            refine h.replace _ y.cache y.lasts ?_ (fun _ => ha'.2) h.cord
+            simp [h.mono c hc, ha'.1]
 
 theorem MInv.expire {y : Sys} (h : MInv y) : MInv (expire y) := by
   unfold CV.Stream.expire
